@@ -17,6 +17,11 @@ HonestReplies == {r \in AllReplies : r.src = "served" /\ r.start = readCur /\ r.
 \* a registry that keeps its connections up but lies
 NoDropReplies == {r \in AllReplies : r.cut = NoCut}
 
+\* a registry that is honest about offsets and lengths but may serve either content on any request
+\* (first pass good, pass after a rewind corrupted, and the other way round)
+SwitchReplies == {r \in AllReplies : r.start = readCur /\ r.cl \in {"right", "absent"} /\ r.cr = "honest"
+                                   /\ r.cut = NoCut}
+
 RecRet == rets' = IF ret'.seq # ret.seq
                   THEN Append(rets, [op |-> ret'.op, n |-> ret'.n, err |-> ret'.err])
                   ELSE rets
